@@ -25,6 +25,8 @@ import (
 type c03Keys struct {
 	device, member, other, otherMember crypto.PrivKey
 	groupSK                             crypto.PrivKey
+	// the device and member keys of the store that will READ the entries (nil: not used)
+	readerDevice, readerMember []byte
 }
 
 func c03GenKey() crypto.PrivKey {
@@ -214,6 +216,16 @@ func c03Catalogue(g, otherG *protocoltypes.Group, typ protocoltypes.EventType, k
 			}
 		}
 	}
+	// f14: events that name the READING store's own device as their signer, written by somebody who does not hold that
+	// device's key (signed by another key / not signed): a store must verify events that claim to be its own like any other
+	if k.readerDevice != nil && !isGroupSigned {
+		p14 := c03BuildPayload(typ, k.readerDevice, k.readerMember, subject)
+		if md, ok := p14.(*protocoltypes.GroupMemberDeviceAdded); ok {
+			md.MemberSig, _ = k.otherMember.Sign(k.readerDevice)
+		}
+		add("f14-reader-own-device/sig-by-other", seal(g, typ, p14, c03Sign(k.other, p14)), true)
+		add("f14-reader-own-device/nosig", seal(g, typ, p14, nil), true)
+	}
 	// f6: empty signature
 	add("f6-nosig", seal(g, typ, payload, nil), true)
 	add("f6-short-sig", seal(g, typ, payload, goodSig[:63]), true)
@@ -295,7 +307,8 @@ func TestVerifC03(t *testing.T) {
 				rep.Inconclusivef("subscribe: %v", err)
 				return
 			}
-			keys := &c03Keys{device: c03GenKey(), member: c03GenKey(), other: c03GenKey(), otherMember: c03GenKey(), groupSK: gsk}
+			keys := &c03Keys{device: c03GenKey(), member: c03GenKey(), other: c03GenKey(), otherMember: c03GenKey(), groupSK: gsk,
+				readerDevice: rawKey(gc.DevicePubKey()), readerMember: rawKey(gc.MemberPubKey())}
 			valid, forgeries := c03Catalogue(g, otherG, typ, keys, rnd)
 			// unknown type numbers, signed like a device-signed event
 			for _, n := range []int32{0, 999, 2147483647, -1} {
